@@ -7,8 +7,8 @@ Open Scope list_scope.
 Open Scope nat_scope.
 
 (* graph on nodes 0..n-1 (networkx node order of make_graph / disjoint_union_all) *)
-Definition mkg (labs : list nat) (es : list edge) : graph :=
-  mkGraph (seq 0 (length labs)) (fun i => nth i labs 0) es.
+Definition mkg (labs cls : list nat) (es : list edge) : graph :=
+  mkGraph (seq 0 (length labs)) (fun i => nth i labs 0) (fun i => nth i cls 0) es.
 
 Definition canon (es : list edge) : list edge := sort_edges (map norm es).
 Fixpoint edges_eqb (a b : list edge) : bool :=
@@ -99,12 +99,12 @@ Proof. unfold get_bond_rearrangs, finish. destruct (enumerate iso_b mv r p n); r
 (* one case: reactant (labels, edges), product (labels, edges), maximal-valence table, the logged
    isomorphism answers, the pruning oracles of the implementation; expected list before pruning and
    expected final results with skip_small_ring_tss = False / True *)
-Definition check_case (labs_r : list nat) (es_r : list edge) (labs_p : list nat) (es_p : list edge)
+Definition check_case (labs_r cls_r : list nat) (es_r : list edge) (labs_p cls_p : list nat) (es_p : list edge)
            (mvt : list nat) (tbl : list (list edge * bool))
            (nlt : list (rearr * nat)) (ringt : list (rearr * list nat))
            (expect_pre expect_noskip expect_skip : outcome) : bool :=
-  let r := mkg labs_r es_r in
-  let p := mkg labs_p es_p in
+  let r := mkg labs_r cls_r es_r in
+  let p := mkg labs_p cls_p es_p in
   let iso := iso_tab tbl in
   let mv := mv_tab mvt in
   let pre := enumerate iso mv r p (length labs_p) in
@@ -121,7 +121,7 @@ Definition check_case (labs_r : list nat) (es_r : list edge) (labs_p : list nat)
 Definition check_prune (labs_r : list nat) (es_r : list edge) (l : list rearr)
            (nlt : list (rearr * nat)) (ringt : list (rearr * list nat)) (skip : bool)
            (expect : list rearr) : bool :=
-  rearrs_eqb (post (tab_nat nlt) (tab_list ringt) (elems_of (mkg labs_r es_r)) skip l) expect.
+  rearrs_eqb (post (tab_nat nlt) (tab_list ringt) (elems_of (mkg labs_r [] es_r)) skip l) expect.
 
 (* strings (texts are passed as Coq string literals; they may contain raw newlines and tabs) *)
 Definition check_save (brs : list rearr) (text : string) : bool := String.eqb (save brs) text.
